@@ -9,6 +9,12 @@ structure DSt where
   alive : Bool := false
   started : Bool := false
   table : List Bytes := []
+  /-- which key the object, the shadow copy `pv.pv` and the key file hold: 0 = the key the file was generated with,
+  k+1 = the key of `updatekey k`.  `UpdatePrikey` changes the object only; `saveSigned` writes the SHADOW (its key is the
+  one loaded); `Reset` and `Save` write the OBJECT (with whatever key it has now); `LoadFilePV` sets both from the file. -/
+  objKey : Nat := 0
+  shadowKey : Nat := 0
+  fileKey : Nat := 0
 
 def idxOf (t : List Bytes) (b : Bytes) : String :=
   match t.findIdx? (· == b) with
@@ -62,7 +68,7 @@ def parseKill (toks : List String) : Option (String × Nat) :=
     | [name, n] => n.toNat?.map (fun n => (name, n))
     | _ => none
 
-def step (d : DSt) (toks : List String) : DSt × String :=
+def stepCore (d : DSt) (toks : List String) : DSt × String :=
   match toks with
   | "case" :: _ => ({}, "ok")
   | "init" :: _ =>
@@ -94,12 +100,20 @@ def step (d : DSt) (toks : List String) : DSt × String :=
       (d', showBoth d')
     | "updatekey" =>
       -- UpdatePrikey replaces the key of the OBJECT only; the shadow copy that is saved keeps the old key; the record stays
-      (d, if d.alive then s!"ok objkey=true filekey=old {showBoth d}" else "dead")
+      if !d.alive then (d, "dead") else
+      match argNat? toks "k" with
+      | none => (d, "bad-op")
+      | some k =>
+        let fk := if d.fileKey = 0 then "old" else if d.fileKey = k + 1 then "new" else "other"
+        ({ d with objKey := k + 1 }, s!"ok objkey=true filekey={fk} {showBoth d}")
     | "loadbad" =>
       if !d.alive then (d, "dead") else
       let r := d.s.disk
       let good := s!"{r.hrs.h}/{r.hrs.r}/{r.hrs.s}/{r.sb.isSome}/{r.sig.isSome}"
-      (d, s!"good=loaded:{good}:same empty=refused truncated=refused cuttail=refused garbage=refused nokey=refused badsig=refused norecord=loaded:0/0/0/false/false:same dir=refused foreign=loaded:0/0/0/false/false:other")
+      -- the `badsig` variant renames the type tag of `last_signature`; a record without a signature has no such member
+      -- (omitempty), so the file is intact and loads
+      let badsig := if r.sig.isSome then "refused" else s!"loaded:{good}:same"
+      (d, s!"good=loaded:{good}:same empty=refused truncated=refused cuttail=refused garbage=refused nokey=refused badsig={badsig} norecord=loaded:0/0/0/false/false:same dir=refused foreign=loaded:0/0/0/false/false:other")
     | "setrec" =>
       if !d.alive then (d, "dead") else
       match argInt? toks "lh", argInt? toks "lr", argInt? toks "ls" with
@@ -162,6 +176,28 @@ def step (d : DSt) (toks : List String) : DSt × String :=
             ({ d' with s := Model.FilePV.step s' .crash }, ans)
     | _ => (d, "bad-op")
   | [] => (d, "bad-op")
+
+/-- key bookkeeping around `stepCore` -/
+def step (d : DSt) (toks : List String) : DSt × String :=
+  let (d', ans) := stepCore d toks
+  match toks with
+  | "case" :: _ => (d', ans)
+  | "init" :: _ => ({ d' with objKey := 0, shadowKey := 0, fileKey := 0 }, ans)
+  | op :: _ =>
+    if !d.started || !d.alive then (d', ans) else
+    match op with
+    | "crash" => ({ d' with objKey := d.fileKey, shadowKey := d.fileKey }, ans)
+    | "reset" => ({ d' with fileKey := d.objKey }, ans)                                      -- Reset: pv.Save() of the object
+    | "setrec" => ({ d' with fileKey := d.objKey, objKey := d.objKey, shadowKey := d.objKey }, ans)   -- harness: Save() of the object, then reload
+    | "signvote" | "signprop" =>
+      if (arg? toks "kill").isSome || (arg? toks "fail").isSome then
+        -- the call ran in a child that loaded the file (shadow = file key) and the parent reloaded afterwards
+        ({ d' with objKey := d.fileKey, shadowKey := d.fileKey }, ans)
+      else if d'.s.persisted.length > d.s.persisted.length then
+        ({ d' with fileKey := d.shadowKey }, ans)                                           -- saveSigned wrote the shadow copy
+      else (d', ans)
+    | _ => (d', ans)
+  | [] => (d', ans)
 
 def machine : Machine := { σ := DSt, init := {}, step := step }
 
